@@ -220,5 +220,30 @@ def wrap [BEq σ] (wv : WVariant) (cw : Char → Nat) (A : StyleAlg σ) (t : Tex
   wrapParagraphs wv cw A width (wrapJustifyOf t justify) (wrapOverflowOf t overflow) (noWrapOf t overflow noWrap)
     tabSize lines
 
+/-! ### the object-level reading: `text.wrap(...)` called several times on one object -/
+
+/-- the arguments of one call -/
+structure WrapArgs where
+  width : Nat
+  justify : Option Justify := none
+  overflow : Option Overflow := none
+  tabSize : Option Nat := some 8
+  noWrap : Option Bool := none
+
+/-- one call on the object in state `t`: the state of the receiver afterwards and the answer.  `Text.wrap` works on
+copies (`split` / `divide` / `copy`) and never assigns to `self`: the receiver is handed on unchanged. -/
+def wrapCall [BEq σ] (wv : WVariant) (cw : Char → Nat) (A : StyleAlg σ) (t : Text σ) (c : WrapArgs) :
+    Text σ × Except PyErr (List (Text σ)) :=
+  (t, wrap wv cw A t c.width c.justify c.overflow c.tabSize c.noWrap)
+
+/-- a history of calls on one object: final state of the receiver and the answers in order -/
+def wrapHistory [BEq σ] (wv : WVariant) (cw : Char → Nat) (A : StyleAlg σ) :
+    Text σ → List WrapArgs → Text σ × List (Except PyErr (List (Text σ)))
+  | t, [] => (t, [])
+  | t, c :: cs =>
+    let r := wrapCall wv cw A t c
+    let rest := wrapHistory wv cw A r.1 cs
+    (rest.1, r.2 :: rest.2)
+
 end Wrap
 end RichModel
